@@ -333,7 +333,22 @@ def gen_deck(rng, force=None):
     radius = force.get('radius', radius)
     surfaces[[s['id'] for s in surfaces].index(10)]['params'] = [radius]
     surfaces[[s['id'] for s in surfaces].index(9)]['params'] = [radius + 1.0]
+    # an explicit FILL array on a cell that is ALSO named in a --lattice option
+    # (given, say, for an earlier revision of the deck): the ranges written on
+    # the card count, the option is ignored.  The option's ranges have the same
+    # number of elements but are shifted / permuted.
+    extra_args = []
+    if not homogeneous and force.get('shadow_opt', rng.random() < 0.3):
+        own = [tuple(r) for r in ranges[:d]]
+        shift = rng.choice([1, 2, -1, -2])
+        opt = [(lo + shift, hi + shift) for lo, hi in own]
+        lens = [hi - lo for lo, hi in own]
+        if d > 1 and len(set(lens)) > 1 and rng.random() < 0.5:
+            opt = opt[1:] + opt[:1]      # same sizes, other axes
+        extra_args = ['--lattice', f'{LAT_CELL},'
+                      + ','.join(f'{lo}:{hi}' for lo, hi in opt)]
     meta = {'d': d, 'kind': kind, 'rpp': use_rpp, 'homogeneous': homogeneous,
+            'extra_args': extra_args,
             'fill_tr': fill_tr is not None,
             'fill_rot': fill_tr is not None and fill_tr['B'] is not None,
             'lat_trcl': lat_trcl is not None, 'cont_tr': cont_tr is not None,
